@@ -47,6 +47,10 @@ Example C04_walk_example :
       mkO (OAlloc 5 4) RetErr (128, [(0,10);(96,128)]) 42 ]) = None.
 Proof. vm_compute. reflexivity. Qed.
 
+(* ... and complete: every transition the safety relation allows is accepted by the judgement *)
+Theorem C04_checker_complete : forall pre live lost o ob post live' lost',
+  safe_step (abs pre live lost) o ob (abs post live' lost') -> safe_stepb pre live o ob post = true.
+Proof. exact safe_stepb_complete. Qed.
 Print Assumptions C04_step.
 Print Assumptions C04_all_histories.
 Print Assumptions C04_fresh_buffer.
@@ -54,3 +58,4 @@ Print Assumptions C04_first_fit_is_safe.
 Print Assumptions C04_checker_sound.
 Print Assumptions C04_walk_sound.
 Print Assumptions C04_data_preserved_by_grow.
+Print Assumptions C04_checker_complete.
